@@ -279,6 +279,8 @@ def strategy():
         return st.one_of(
             st.tuples(cond, child, child).map(lambda t: ['call', 'IF', list(t)]),
             st.tuples(cond, child, child).map(lambda t: ['call', 'IF', list(t)]),
+            # a condition whose evaluation fails (through a cell that fails, or inline): IF fails, it does not pick a branch
+            st.tuples(failcond, child, child).map(lambda t: ['call', 'IF', list(t)]),
             st.tuples(cond, child).map(lambda t: ['call', 'IF', list(t)]),
             st.lists(pair, min_size=1, max_size=3).map(lambda ps: ['call', 'IFS', [x for p in ps for x in p]]),
             st.tuples(st.lists(pair, min_size=1, max_size=2), failcond, child).map(lambda t: ['call', 'IFS', [x for p in t[0] for x in p] + [t[1], t[2]]]),
